@@ -357,6 +357,9 @@ type caseRun struct {
 	qModel int
 	qSpec  int
 	qOk    int
+
+	hasStreamed bool
+	qStreamed   [3]int // i, s, is
 }
 
 func prepare(c *Case, reqs *[]string) *caseRun {
@@ -380,6 +383,15 @@ func prepare(c *Case, reqs *[]string) *caseRun {
 	cr.qSpec = len(*reqs) - 1
 	*reqs = append(*reqs, "ok\t"+*devArg+"\t"+cr.tgs)
 	cr.qOk = len(*reqs) - 1
+	// what the recorded deviations predict for THIS case (filter-free target sets with a
+	// from-the-end index or a slice): the streamed readings, each alone and both
+	if synt := features(c.Targets, false); (synt["from-end-index"] || synt["slice-bounds"]) && !synt["filter-first-only"] {
+		cr.hasStreamed = true
+		for i, mode := range []string{"i", "s", "is"} {
+			*reqs = append(*reqs, "streamed\t"+*devArg+"\t"+mode+"\t"+cr.tgs+"\t"+cr.doc)
+			cr.qStreamed[i] = len(*reqs) - 1
+		}
+	}
 	return cr
 }
 
@@ -454,6 +466,75 @@ func diffClass(got, want string) string {
 		return "repeated"
 	}
 	return "order"
+}
+
+// explain decides, for ONE case whose callbacks differ from parse-then-locate, whether they are
+// exactly what recorded deviations predict for this case, and which ones. outsideFeats are the named
+// constructs of the targets outside okTarget (none: nothing to explain with).
+//   - a target set without a filter: the prediction is the specification's expectation for the
+//     targets in their streamed reading (C17_streamed): from-the-end indexes alone, slices alone, or
+//     both; the smallest reading that gives the implementation's callbacks names the finding(s);
+//   - a set with a filter target: the prediction is the model's run (checkRest with Locate(v,1)/First
+//     and "no other target is looked at inside a collected container" have no reading as a target);
+//     the named constructs of the outside targets are all listed.
+//
+// Anything else is a violation.
+func explain(cr *caseRun, ans []string, res, model string, outsideFeats map[string]bool) ([]string, string) {
+	if len(outsideFeats) == 0 {
+		return nil, ""
+	}
+	allKnown := func(ids []string) bool {
+		for _, f := range ids {
+			if !lib.HasKnown(knownList, "C17-"+f) {
+				return false
+			}
+		}
+		return len(ids) > 0
+	}
+	onlyStreamable := true
+	for f := range outsideFeats {
+		if f != "from-end-index" && f != "slice-bounds" {
+			onlyStreamable = false
+		}
+	}
+	if cr.hasStreamed && onlyStreamable {
+		var p [3]string
+		na := false
+		for i := range p {
+			p[i] = lib.FloatTextToBits(ans[cr.qStreamed[i]])
+			if ans[cr.qStreamed[i]] == "n/a" || ans[cr.qStreamed[i]] == "bad-op" {
+				na = true
+			}
+		}
+		if !na {
+			var ids []string
+			how := ""
+			switch {
+			case res == p[0] && outsideFeats["from-end-index"]:
+				ids, how = []string{"from-end-index"}, "the expectation with from-the-end indexes read as selecting nothing"
+			case res == p[1] && outsideFeats["slice-bounds"]:
+				ids, how = []string{"slice-bounds"}, "the expectation with slices read as [:]"
+			case res == p[2] && outsideFeats["from-end-index"] && outsideFeats["slice-bounds"]:
+				ids, how = []string{"from-end-index", "slice-bounds"}, "the expectation with from-the-end indexes read as selecting nothing and slices as [:]"
+			}
+			if allKnown(ids) {
+				return ids, how
+			}
+			return nil, ""
+		}
+	}
+	if res != model {
+		return nil, ""
+	}
+	var ids []string
+	for f := range outsideFeats {
+		ids = append(ids, f)
+	}
+	sort.Strings(ids)
+	if allKnown(ids) {
+		return ids, "the run of the model of the current code (a filter target: one callback per collected container, other targets not looked at inside it)"
+	}
+	return nil, ""
 }
 
 // hasFromEndSlice: a slice with a negative start or end, or a step that is not positive.
@@ -552,11 +633,20 @@ func judge(cr *caseRun, ans []string) {
 	descentQuirk := func(exp string) bool {
 		return spec != exp && features(c.Targets, true)["trailing-descent"] && onlyExtraScalars(spec, exp)
 	}
-	if cr.okOj && !dup && descentQuirk(cr.expOj) {
+	// Only when every entry point gives exactly the model's callbacks: a case on which model and
+	// implementation disagree keeps the evaluators' expectation (and is reported on both counts).
+	implIsModel := true
+	for _, r := range cr.runs {
+		if r.res != model {
+			implIsModel = false
+		}
+	}
+	if cr.okOj && !dup && implIsModel && descentQuirk(cr.expOj) {
+		rep.Count("expectation_from_model", 1)
 		rep.Count("evaluator.descent-not-entered-at-scalar", 1)
 		cr.expOj = spec
 	}
-	if cr.okSen && !dup && descentQuirk(cr.expSen) {
+	if cr.okSen && !dup && implIsModel && descentQuirk(cr.expSen) {
 		cr.expSen = spec
 	}
 	if cr.okOj && !dup && spec != cr.expOj && hasFromEndSlice(c.Targets) {
@@ -603,20 +693,13 @@ func judge(cr *caseRun, ans []string) {
 		}
 		seenClass["v"] = true
 		dc := diffClass(r.res, exp)
-		if len(feats) > 0 && r.res == model {
-			all := true
-			for f := range feats {
-				if !lib.HasKnown(knownList, "C17-"+f) {
-					all = false
-				}
+		if ids, how := explain(cr, ans, r.res, model, feats); len(ids) > 0 {
+			info["explained_by"] = how
+			for _, f := range ids {
+				rep.Add(lib.Finding{Kind: "known", Class: "callbacks:" + f, KnownID: "C17-" + f,
+					What: "callbacks differ from parse-then-locate (" + dc + ") and equal, on this case, " + how, Replay: cr.replayOf(info)})
 			}
-			if all {
-				for f := range feats {
-					rep.Add(lib.Finding{Kind: "known", Class: "callbacks:" + f, KnownID: "C17-" + f,
-						What: "callbacks differ from parse-then-locate (" + dc + "); the targets use the construct and the model of the current code reproduces the callbacks", Replay: cr.replayOf(info)})
-				}
-				continue
-			}
+			continue
 		}
 		add("violation", "callbacks:"+dc, "callbacks of "+r.entry+" differ from parse-then-locate: "+dc, cr.replayOf(info))
 	}
@@ -639,6 +722,11 @@ func processBatch(d *lib.Driver, batch []*Case) error {
 		if d == nil { // probing without a driver: judge against the expectation only
 			ans = make([]string, len(reqs))
 			ans[cr.qModel], ans[cr.qSpec], ans[cr.qOk] = cr.runs[0].res, cr.expOj, ""
+			if cr.hasStreamed {
+				for _, q := range cr.qStreamed {
+					ans[q] = "n/a"
+				}
+			}
 		}
 		judge(cr, ans)
 	}
@@ -854,6 +942,9 @@ func main() {
 		os.Exit(3)
 	}
 	rep.Rule = "cases (document tree with known member order written as JSON text, 1-3 target paths): corpus; boundary families (nested arrays/maps, index bookkeeping after a container closes, empty containers, overlapping and nested targets, filters, slices, from-the-end indexes); exhaustive boxes of small documents times all short targets and target pairs; seeded random documents with targets generalised from the document's own locations (child, index, wildcard, union, slice, descent, trailing filter; nested pairs); documents with a repeated member name (model vs code only). Each case runs oj.Match, oj.MatchString, oj.MatchLoad (whole, 1-byte, 3-byte, every 2-chunk split of short texts, a 4096 read-buffer boundary moved through the text), the same text behind a byte order mark through oj.Match and oj.MatchLoad with the reader cut inside and right after the mark (1-byte, 3, 1+2, 2+1, 3+1, 2, 4), sen.Match on the JSON text, on the SEN text (bare names, no commas) and on the SEN text with strings and names between single quotes, sen.MatchLoad byte by byte, on the single-quoted text whole/split/byte by byte, and behind a byte order mark; a stream of strings and member names holding the other quote character; duplicates (same document, targets, white space) are dropped; distinct_nontrivial counts cases whose expectation has at least one callback; PathMatch cases count one each"
+	rep.Rule += ". ORACLES: (a) parse-then-locate = oj.Parse/sen.Parse + Expr.Locate + Expr.First, outermost and document order computed from the harness's tree; a case has no such oracle (distribution no-oracle.*) when Locate and Get disagree on a target, and is then judged only by model == implementation and by agreement of the entry points. (b) expectation_from_model: on the counted cases the parse-then-locate oracle is SKIPPED and the Lean specification's `expected` (not the transducer model) is the reference: a target ends in a descent and the whole difference between the two is that Locate/Get do not enter a descent at a scalar reached by an earlier fragment ($.a.. with a number at a) while they do at the root and below containers; the branch is taken only if every entry point's callbacks equal the model's run, so a model/implementation disagreement can never be judged this way; those cases are still judged by implementation == specification, model == implementation and agreement of entry points and chunkings. (c) evaluator.slice-from-end-corner: only the cross-check specification vs parse-then-locate is skipped (Locate and Get agree there by accident), the implementation is still judged against parse-then-locate. KNOWN findings are decided per case: the implementation's callbacks must equal what the named deviation predicts for that case — for filter-free target sets the specification's expectation for the streamed reading of the targets (from-the-end indexes alone, slices alone, or both; driver op streamed, C17_streamed), for sets with a filter target the model's run — anything else is a violation"
+	rep.Notes = append(rep.Notes, fmt.Sprintf("expectation_from_model=%d of %d cases (parse-then-locate skipped, Lean specification is the reference; only where implementation == model; see rule (b))",
+		rep.Distribution["expectation_from_model"], rep.Evaluations))
 	if err := rep.Write(*outPath); err != nil {
 		fmt.Fprintln(os.Stderr, err)
 		os.Exit(3)
